@@ -269,17 +269,32 @@ func c01IsDsig(e *etree.Element, tag string) bool {
 	return e.Tag == tag && c01Resolve(e, e.Space) == c01DsigNS
 }
 
-// c01Norm renders the information a signature over e commits to (exclusive c14n without comments,
-// empty prefix list): resolved names, prefixes, attributes, text, processing instructions. When top
-// is set, e is a signed unit: the KeyInfo of its own enveloped Signature is not covered by that
-// signature and is left out.
-func c01Norm(e *etree.Element, top bool) string {
-	var b strings.Builder
-	c01NormInto(&b, e, top, false)
-	return b.String()
+// c01Norms renders the information a signature over e commits to (exclusive c14n without comments,
+// empty prefix list): resolved names, prefixes, attributes, text, processing instructions. e is a
+// signed unit: its own enveloped Signature is removed by the enveloped-signature transform wherever
+// among e's children it stands (its position is not signed content), its SignedInfo and SignatureValue
+// are committed to by the signature itself, its KeyInfo by nothing. One rendering per child Signature
+// (a second Signature child is content to the first).
+func c01Norms(e *etree.Element) []string {
+	var out []string
+	for _, c := range e.ChildElements() {
+		if c01IsDsig(c, "Signature") {
+			var b strings.Builder
+			c01NormInto(&b, e, c, false)
+			b.WriteString("|SIG|")
+			c01NormInto(&b, c, nil, true)
+			out = append(out, b.String())
+		}
+	}
+	if out == nil {
+		var b strings.Builder
+		c01NormInto(&b, e, nil, false)
+		out = append(out, b.String())
+	}
+	return out
 }
 
-func c01NormInto(b *strings.Builder, e *etree.Element, top, ownSig bool) {
+func c01NormInto(b *strings.Builder, e *etree.Element, skip *etree.Element, ownSig bool) {
 	b.WriteString("<{" + c01Resolve(e, e.Space) + "}" + e.Space + ":" + e.Tag)
 	var attrs []string
 	for _, a := range e.Attr {
@@ -310,11 +325,11 @@ func c01NormInto(b *strings.Builder, e *etree.Element, top, ownSig bool) {
 			text += v.Data
 		case *etree.Comment:
 		case *etree.Element:
-			if ownSig && c01IsDsig(v, "KeyInfo") {
+			if v == skip || (ownSig && c01IsDsig(v, "KeyInfo")) {
 				continue
 			}
 			flush()
-			c01NormInto(b, v, false, top && c01IsDsig(v, "Signature"))
+			c01NormInto(b, v, nil, false)
 		case *etree.ProcInst:
 			flush()
 			b.WriteString("?" + v.Target + " " + v.Inst)
@@ -373,7 +388,7 @@ func (w *c01World) covered(root *etree.Element, depth int, into map[int]bool) {
 	}
 	var all []*etree.Element
 	c01All(root, &all)
-	cache := map[*etree.Element]string{}
+	cache := map[*etree.Element][]string{}
 	for _, e := range all {
 		id := ""
 		for _, a := range e.Attr {
@@ -391,12 +406,14 @@ func (w *c01World) covered(root *etree.Element, depth int, into map[int]bool) {
 			}
 			n, ok := cache[e]
 			if !ok {
-				n = c01Norm(e, true)
+				n = c01Norms(e)
 				cache[e] = n
 			}
-			if n == u.Norm {
-				for _, gi := range u.Covers {
-					into[gi] = true
+			for _, one := range n {
+				if one == u.Norm {
+					for _, gi := range u.Covers {
+						into[gi] = true
+					}
 				}
 			}
 		}
@@ -602,14 +619,14 @@ func (w *c01World) issue(st *c01Step, si int, t0 time.Time) *c01Msg {
 			if a.Encrypt {
 				src = w.blobs[c01CipherKey(m.gas[i])]
 			}
-			w.units = append(w.units, c01Unit{Kind: "A", ID: a.ID, Norm: c01Norm(src, true), Covers: []int{idx[i]}, Key: a.SignKey})
+			w.units = append(w.units, c01Unit{Kind: "A", ID: a.ID, Norm: c01Norms(src)[0], Covers: []int{idx[i]}, Key: a.SignKey})
 		}
 	}
 	if s.Sign && c01RootKey(s.SignKey) {
-		w.units = append(w.units, c01Unit{Kind: "R", ID: s.ID, Norm: c01Norm(m.gresp, true), Covers: all, Key: s.SignKey})
+		w.units = append(w.units, c01Unit{Kind: "R", ID: s.ID, Norm: c01Norms(m.gresp)[0], Covers: all, Key: s.SignKey})
 	}
 	if m.ar != nil && st.ArtSign && c01RootKey(st.ArtKey) {
-		w.units = append(w.units, c01Unit{Kind: "AR", ID: "id-art-" + strconv.Itoa(si), Norm: c01Norm(m.ar, true), Covers: all, Key: st.ArtKey})
+		w.units = append(w.units, c01Unit{Kind: "AR", ID: "id-art-" + strconv.Itoa(si), Norm: c01Norms(m.ar)[0], Covers: all, Key: st.ArtKey})
 	}
 	return m
 }
